@@ -13,6 +13,8 @@ BINOPS = ["add", "sub", "mul", "truediv", "floordiv", "mod", "divmod", "pow", "l
 ARITH = ["add", "sub", "mul"]
 CMPS = ["lt", "le", "eq", "ne", "gt", "ge"]
 UNOPS = ["neg", "pos", "abs", "invert"]
+# augmented assignment `t = a; t op= x` (instruction `iop`): Python calls type(t).__iop__ where it exists and falls back to t = t op x
+IOPS = ["add", "sub", "mul", "truediv", "floordiv", "mod", "pow", "lshift", "rshift", "and", "xor", "or"]
 ASSERTS = ["assert_lt", "assert_le", "assert_eq", "assert_ne", "assert_gt", "assert_ge"]
 L_KINDS = ["priv", "pub", "const"]
 B_KINDS = ["privb", "pubb"]
@@ -446,9 +448,20 @@ def guarded_case(rnd, cid, p=BN128, depth=None):
     pool = [b.operand("L", value=rnd.choice([0, 1, -1, half - 1, half, rnd.randrange(-half, half)])) for _ in range(3)]
     pool.append(b.operand("L", value=rnd.choice([0, 0, 1, 3])))
     gk = rnd.choice(["L", "L", "L", "B", "I"])
+    # a NESTED region whose own condition is a raw secret integer that is not 0/1, below valid outer conditions: under a false
+    # outer guard entering it is part of the dead code (add_guard tolerates the value when errors are suppressed) and must not raise
+    bad_inner = None
+    if depth >= 2 and not bad_guard and rnd.random() < 0.12:
+        bad_inner = rnd.randrange(1, depth)
+        if rnd.random() < 0.7:
+            gvals[rnd.randrange(0, bad_inner)] = 0
     grs = []
-    for g in gvals:
+    for j, g in enumerate(gvals):
         v = g if not bad_guard else rnd.choice([2, -1])
+        if j == bad_inner:
+            gvals[j] = v = rnd.choice([5, -2, 2, 3, -1])
+            grs.append(b.operand("L", value=v))
+            continue
         grs.append(b.operand(gk, value=v))
     for gr in grs:
         b.emit(f"genter r{gr}", "N")
@@ -485,7 +498,8 @@ def guarded_case(rnd, cid, p=BN128, depth=None):
     r = b.emit(f"bin mul r{a} r{o}", "?")
     b.emit(f"call val r{r}", "I")
     return Case(cid, cfg, b.ins, {"shape": "guarded", "op": "+".join(sorted(set(bodyops))), "kinds": gk,
-                                  "gvals": gvals, "depth": depth, "malformed": bad_guard})
+                                  "gvals": gvals, "depth": depth, "malformed": bad_guard or bad_inner is not None,
+                                  "bad_inner": bad_inner})
 
 
 def array_case(rnd, cid, p=BN128):
@@ -595,6 +609,109 @@ def reuse_case(rnd, cid, p=BN128):
         if b.ins[r].startswith(("bin", "un")) and rnd.random() < 0.5:
             b.emit(f"call val r{r}", "I")
     return Case(cid, cfg, b.ins, {"shape": "reuse", "op": "+".join(sorted(set(used))), "kinds": f"{cls}:{region}", "malformed": cls != "inside"})
+
+
+def fieldsize_pow_case(rnd, cid, p=BN128):
+    """powers and shifts with a SECRET exponent whose exact result lies around the field size: base ** e and k << e with
+    base^e in roughly [p/8, 8p) (exponents floor(log_base p) - 2 .. + 1): below p/2, between p/2 and p (still an ordinary
+    non-negative integer below the prime: Python's value must come back), and above p"""
+    import math
+    cfg = cfg_for(rnd, p=p); cfg["ign"] = 0
+    b = Builder(rnd, cfg)
+    form = rnd.choice(["rpow", "rpow", "pow", "lshift"])
+    base = 2 if form == "lshift" else rnd.choice([2, 2, 3, 5, 7, 10, -2, -3, 6])
+    top = int(math.log(p) / math.log(abs(base)))
+    while abs(base) ** (top + 1) <= p: top += 1
+    while abs(base) ** top > p: top -= 1                      # |base|^top <= p < |base|^(top+1)
+    e = max(0, top + rnd.choice([-2, -1, -1, 0, 0, 0, 1]))
+    cfg["bl"] = b.cfg["bl"] = rnd.choice([w for w in (8, 9, 12, 16, 32) if e < (1 << w)] or [32])     # the exponent is split into bitlength bits
+    re_ = b.emit(f"mk {rnd.choice(['priv', 'priv', 'pub'])} r{b.int_lit(e)}", "L")
+    if form == "rpow":
+        rr = b.emit(f"bin pow r{b.int_lit(base)} r{re_}", "L")
+    elif form == "pow":
+        rb = b.emit(f"mk {rnd.choice(['priv', 'pub', 'const'])} r{b.int_lit(base)}", "L")
+        rr = b.emit(f"bin pow r{rb} r{re_}", "L")
+    else:
+        k = rnd.choice([1, 1, 1, 3])
+        rk = b.emit(f"mk priv r{b.int_lit(k)}", "L") if rnd.random() < 0.7 else b.int_lit(k)
+        rr = b.emit(f"bin lshift r{rk} r{re_}", "L")
+    if rnd.random() < 0.5:
+        b.emit(f"call val r{rr}", "I")
+    return Case(cid, cfg, b.ins, {"shape": "op", "op": "pow" if form != "lshift" else "lshift", "kinds": "fieldsize:" + form, "malformed": False})
+
+
+def inplace_case(rnd, cid, p=BN128, fx=False):
+    """augmented assignment on a SECOND REFERENCE of a value: `t = a; t op= x` (instruction `iop op rA rX`, a new register for t),
+    followed by reads of the original `a` (and of `t`, possibly after a further `t op2= y`).  Values are immutable: whatever the
+    library does for `op=`, `a` still is what it was.  fx: fixed-point receivers / operands (C14), else int / bool (C05)."""
+    if fx:
+        res = rnd.choice([0, 1, 4, 8]); bl = rnd.choice([16, 24, 32]) + res
+        cfg = {"p": p, "bl": bl, "res": res, "ign": 0}
+    else:
+        cfg = cfg_for(rnd, p=p); cfg["ign"] = 0
+        if cfg["bl"] < 8:
+            cfg["bl"] = rnd.choice([8, 12, 16])
+    bl = cfg["bl"]; res = cfg["res"]
+    q = 1 << max(2, min(bl // 4, 6))
+    b = Builder(rnd, cfg)
+
+    def fxv(nonzero=False):
+        if rnd.random() < 0.5:
+            a = b.int_lit(rnd.randrange(-20, 21) or (1 if nonzero else 0))
+        else:
+            a = b.flt_lit(rnd.randrange(-100, 101) or (1 if nonzero else 0), rnd.choice([0, 1, res]) if res else 0)
+        return b.emit(f"mk {rnd.choice(X_KINDS)} r{a}", "X")
+
+    def operand(k, v, nonzero=False):
+        if k == "X":
+            return fxv(nonzero)
+        if k == "F":
+            return b.flt_lit(rnd.randrange(-100, 101) or 1, rnd.choice([0, 1, res]) if res else 0)
+        if k == "B":
+            return b.emit(f"mk {rnd.choice(B_KINDS)} r{b.int_lit(1 if nonzero else rnd.choice([0, 1]))}", "B")
+        if k == "I":
+            return b.int_lit(v)
+        return b.emit(f"mk {rnd.choice(['priv', 'priv', 'pub'])} r{b.int_lit(v)}", "L")
+
+    if fx:
+        ka, kb = rnd.choice([("X", "X"), ("X", "X"), ("X", "L"), ("X", "I"), ("X", "F"), ("X", "B"), ("L", "X"), ("B", "X")])
+        op = rnd.choice(["add", "add", "sub", "sub", "mul", "truediv", "floordiv", "mod"])
+        lo = -q
+    else:
+        ka, kb = rnd.choice([("L", "L"), ("L", "L"), ("L", "I"), ("L", "B"), ("B", "B"), ("B", "L"), ("B", "I"), ("I", "L")])
+        op = rnd.choice(["add", "add", "sub", "sub", "mul", "mul", "floordiv", "mod", "truediv", "and", "or", "xor", "lshift", "rshift", "pow"])
+        lo = 0 if op in ("and", "or", "xor", "lshift", "rshift") else -q
+        if ka == "B" and rnd.random() < 0.6:
+            op = rnd.choice(["and", "or", "xor"])
+    nz = op in ("truediv", "floordiv", "mod")
+    va = rnd.randrange(lo, q + 1); vx = rnd.randrange(1 if nz else lo, q + 1)
+    if op == "truediv" and not fx:
+        vx = rnd.randrange(1, 5); va = vx * rnd.randrange(-q // 4, q // 4 + 1)        # exact
+    a = operand(ka, va)
+    if op in ("lshift", "rshift", "pow"):
+        x = b.int_lit(rnd.randrange(0, 4)); kb = "I"
+    else:
+        x = operand(kb, vx, nonzero=nz)
+    t = b.emit(f"iop {op} r{a} r{x}", "?")
+    used = [op]
+    reads = []
+    for _ in range(rnd.randrange(1, 4)):
+        c = rnd.random()
+        if c < 0.35 and b.kinds[a] != "I":
+            reads.append(b.emit(f"call val r{a}", "I"))
+        elif c < 0.6:
+            reads.append(b.emit(f"bin add r{a} r{b.int_lit(0)}", "?"))
+        elif c < 0.8:
+            reads.append(b.emit(f"bin sub r{a} r{x}", "?"))
+        else:
+            y = operand("X" if fx else "L", rnd.randrange(1, q + 1))
+            op2 = rnd.choice(["add", "sub", "mul"])
+            t2 = b.emit(f"iop {op2} r{t} r{y}", "?"); used.append(op2)
+            b.emit(f"bin add r{t} r{b.int_lit(0)}", "?")       # the first result after a further augmented assignment on ITS second reference
+            if rnd.random() < 0.5:
+                b.emit(f"call val r{t2}", "I")
+    b.emit(f"call val r{t}", "I")
+    return Case(cid, cfg, b.ins, {"shape": "inplace", "op": "i" + "+i".join(used), "kinds": ka + kb, "malformed": False})
 
 
 def generate(rnd, n, prefix, mix=None, p=BN128):
